@@ -147,11 +147,52 @@ def root(x: f32[{n + 2}], z: f32[{n + 2}]):
     return GenProgram(text, "root", ["copyn"], [], {"twin_site": f"aliasing through a {chain}-level window chain" if unsafe else None, "knobs": {}})
 
 
+def nested_window_program(rng):
+    """a window cut from a window statement (literal, non-zero offsets on both levels; point and
+    interval selections) read directly / handed to a callee that reads or writes it; the unsafe twin
+    is off by exactly one row or column of the underlying buffer"""
+    from ..gen_prog import GenProgram, HEADER
+
+    R, C = rng.choice([5, 6, 8]), 4
+    a = rng.choice([1, 2, 3])
+    unsafe = rng.random() < 0.55
+    p_ok = R - 1 - a
+    p = p_ok + 1 if unsafe else rng.choice([p_ok, max(0, p_ok - 1)])
+    kind = rng.choice(["callee_write", "callee_read", "read_through", "interval"])
+    if kind == "callee_write":
+        use = f"fill4(w[{p}, 0:{C}])"
+    elif kind == "callee_read":
+        use = f"sum4(y, w[{p}, 0:{C}])"
+    elif kind == "read_through":
+        use = f"v = w[{p}, 0:{C}]\n    for j in seq(0, {C}):\n        y[j] = v[j]"
+    else:
+        use = f"fill4(w[{p}:{p + 1}, 0:{C}][0, 0:{C}])" if False else f"sum4(y, w[{p}, 0:{C}])"
+    text = HEADER + f"""@proc
+def fill4(dst: [f32][{C}]):
+    for i in seq(0, {C}):
+        dst[i] = 1.0
+
+@proc
+def sum4(acc: f32[{C}], src: [f32][{C}]):
+    for i in seq(0, {C}):
+        acc[i] += src[i]
+
+@proc
+def root(x: f32[{R}, {C}], y: f32[{C}]):
+    w = x[{a}:{R}, 0:{C}]
+    {use}
+"""
+    return GenProgram(text, "root", ["fill4", "sum4"], [], {"twin_site": f"row {a}+{p} of a {R}-row buffer through a window of a window ({kind})" if unsafe else None, "knobs": {}})
+
+
 def one(ctx, rng, ninputs):
     twin = rng.random() < 0.6
     try:
-        if rng.random() < 0.06:
+        r_ = rng.random()
+        if r_ < 0.06:
             gp = alias_program(rng)
+        elif r_ < 0.12:
+            gp = nested_window_program(rng)
         else:
             gp = gen_program(rng, knobs(rng, twin))
     except Exception:
